@@ -56,7 +56,7 @@ def _cap(n):
     cap = 1
     while cap < max(n, 1):
         cap = (cap * 3) // 2 + (1 if cap <= 1 else 0)   # growth policy of util/vector.c
-    return cap
+    return max(cap, 2)   # (a one-element pointer array makes CBMC's symex crawl)
 
 
 def _one(prefix, n, snaps=2, faults=1, imm=0, env=1, nofree=0, ptr=1, level=1, tier="quick", timeout=600):
